@@ -361,6 +361,53 @@ def inner_factory(H, budget, alphabet, kinds, let_path, fuel, values="ground"):
     return make
 
 
+def operand_factory(H, fuel=20000):
+    """Rewrites of an OPERAND: `a op b` against `a op (if true then b else b)` and
+    `a op (((i : int) => i) b)`, for every arithmetic and comparison operator and negation over
+    literals and sums of literals (all values symbolic).  The rewrite changes whether the operand is
+    already a value when the operator is evaluated -- nothing else."""
+    def alpha(node):
+        if node.depth == 1:
+            return I.BINARY + ["Negation"]
+        if node.depth == 2:
+            return ["IntegerLiteral", "Sum"]
+        return ["IntegerLiteral"]
+
+    def make():
+        ex, it = H.engine(solver_timeout_ms=120000)
+        ex.fuel = fuel
+        sp = TC.ProgramSpace("p", 3, alpha, scope=0)
+        tw = TwinSpace("p", 3, alpha, scope=0)
+        root, twin = sp.root(), tw.root()
+
+        def extra(ex, it, root, twin, a, compare):
+            ct = single_ctor(ex, twin) if len(ex.allowed(twin)) == 1 else None
+            arity = 1 if ex.allowed(twin) == frozenset(["Negation"]) else 2
+            for slot in range(arity):
+                e = twin.kid(slot)
+                ident = T.mk("Lambda", ["i", False, T.mk("Integer", []), T.mk("Variable", ["i", 0])])
+                for kind, wrapped in (("O4", T.mk("If", [T.mk("True", []), e, e])), ("O3", T.mk("Application", [ident, e]))):
+                    kids = [twin.kid(i) for i in range(arity)]
+                    kids[slot] = wrapped
+                    # the root's constructor may still be a set (all binary operators share one arm):
+                    # rebuild per constructor
+                    for c in sorted(ex.allowed(twin)):
+                        if len(ex.allowed(twin)) > 1 and not ex.decide_ctor(twin, frozenset([c])):
+                            continue
+                        compare(kind, T.mk(c, kids), {"let_path": [slot], "values": "ground"})
+                        break
+        ob = term_obligations([], extra=extra)
+
+        def body(ex):
+            it.call_depth = 0
+            try:
+                ob(ex, it, root, twin)
+            except PanicEx as p:
+                ex.check(False, "PANIC %s (%s.rs:%s)" % (p.msg, p.module, p.line), info=lambda m: TC.input_case(ex, m, root))
+        return ex, body, None
+    return make
+
+
 def inner_families():
     """(name, alphabet, node budget, path of the group).  Hole-free programs."""
     out = []
@@ -467,6 +514,17 @@ def wrap_json(kind, tj, ty=None, path=None):
     hole = lambda c: {"v": "Unifier", "cell": c, "shift": 1, "sr": None}
     if kind.startswith("I"):
         return inner_json(kind, tj, path or [])
+    if kind.startswith("O"):
+        out = dict(tj)
+        kids = list(tj["kids"])
+        e = kids[path[0]]
+        if kind == "O4":
+            kids[path[0]] = {"v": "If", "sr": None, "kids": [{"v": "True", "sr": None}, e, e]}
+        else:
+            ident = {"v": "Lambda", "sr": None, "name": "i", "implicit": False, "kids": [{"v": "Integer", "sr": None}, {"v": "Variable", "sr": None, "name": "i", "index": 0}]}
+            kids[path[0]] = {"v": "Application", "sr": None, "kids": [ident, e]}
+        out["kids"] = kids
+        return out
     if kind == "R1":
         return {"v": "Let", "sr": None, "defs": [{"name": "unused", "ann": hole(9001), "def": {"v": "IntegerLiteral", "sr": None, "value": "0"}}], "body": tj}
     if kind == "R2":
@@ -758,6 +816,15 @@ def main():
             c03.handle(H, m.violations, confirm_fn=confirm_term, classify_fn=lambda l, c: None)
             for mm in H.mismatches[:4]:
                 H.log("   mismatch values: %s" % (mm["case"].get("values"),))
+        if not os.environ.get("C19_INNER"):
+            nm = "operand rewrites O3+O4 on every operator over literals and sums of literals"
+            t0 = time.time()
+            m = parallel_explore(operand_factory(H), min(H.jobs, 4))
+            H.absorb_merged(nm, m)
+            H.log("%s: %d paths %s, %d obligations, %d discharged, %d workers, %.1fs" % (
+                nm, m.stats.get("paths", 0), m.counters, m.stats.get("obligations", 0), m.stats.get("discharged", 0), m.workers, time.time() - t0))
+            c03.handle(H, m.violations, confirm_fn=confirm_term, classify_fn=lambda l, c: None)
+            H.bounds["operand sites"] = "every arithmetic/comparison operator and negation over integer literals and sums of literals: an operand wrapped in `if true` (O4) or in an applied annotated identity (O3)"
         if not os.environ.get("C19_SKIP_INNER"):
             fams = inner_families()
             if quick and not os.environ.get("C19_INNER"):
